@@ -100,7 +100,7 @@ NOTES = []
 KEYS = ["a", "b", "c", "d", " ", " ", "'", '"', "\\", "|", "&", ";", ">", "<", "$", "(", ")", "{", "}", "*", "~", "#", "=", "é", "日", "\u3000", "ü", "😀", "\t", "\t",
         "\x01", "\x05", "\x02", "\x06", "\x0b", "\x15", "\x17", "\x7f", "\x7f", "\x1b[D", "\x1b[C", "\x1b[A", "\x1b[B", "\x1b[H", "\x1b[F", "\x1bb", "\x1bf", "\x14", "\x19"]
 SAFE_WORDS = ["argv", "argv a", "'x y'", '"q', "'", '"', "\\", "|", "||", "&&", ";", ">", "> f1", ">>", "2>&1", "<", "<<<", "$A", "${A", "$(", ")", "(", "{a,b}", "{1..3}", "*", "~",
-              "#", "é", "日本", "a=b", "1 + 2", "2 ^ 70", "cd", "alias", "export A=1", "\u3000", "`", "\\\n"]
+              "#", "é", "日本", "a=b", "1 + 2", "2 ^ 70", "cd", "alias", "export A=1", "\u3000", "`", "\\\n", "!!", "'!!'"]
 
 
 def process(tier, rng, cicada):
@@ -143,8 +143,13 @@ def process(tier, rng, cicada):
     # (2) key sequences
     m = 21 if tier == "quick" else 450
     kcases = []
-    for i in range(m):
-        if i % 3 == 2:
+    # lines that are harmless the first time must be harmless the second time: the same line twice, `!!` while the previous line itself holds `!!`
+    fixed = [["argv !!\r", "argv !!\r", "argv !!\r"], ["!!\r", "!!\r"], ["argv '!!'\r", "argv !!\r", "argv \"!!\" !!\r"],
+             ["argv a\r", "!!\r", "!! !!\r", "!!\r"], ["'\r", "\x03", "'\r", "\x03", "argv a\r", "argv a\r"]]
+    for i in range(m + len(fixed)):
+        if i >= m:
+            pieces = fixed[i - m]
+        elif i % 3 == 2:
             # completion probes: a word (plain, multi-byte start, open quote, escaped blank) ending in something a completer
             # claims ($NAME, ~/, ./, a path prefix, `..`, a command-name prefix), then TAB once or twice; never submitted
             pieces = []
@@ -157,6 +162,8 @@ def process(tier, rng, cicada):
             pieces = [r.choice(KEYS) for _ in range(5 + r.below(60))]                                # editing only: never submitted
         else:
             pieces = [" ".join(r.choice(SAFE_WORDS) for _ in range(1 + r.below(6))) + "\r" for _ in range(1 + r.below(4))]   # submitted lines of harmless words
+            if r.chance(1, 3):
+                pieces.append(r.choice(pieces))                                                      # one of them a second time
         keys = "\x00".join(pieces)      # (the pieces are typed one by one: a burst would be read as pasted text and TAB would not complete)
         c = Case("alive", [hx(keys)], {"gen": "p", "kind": "keys"})
         c.id = "k%d" % i
